@@ -229,7 +229,8 @@ impl Registry {
 
 /// the bare database name of a `USE ...` statement (text after "USE ")
 pub fn bare_db(s: &str) -> String {
-    let t = s.trim();
+    // ASCII white space only: other white space characters belong to the name
+    let t = s.trim_matches(|c: char| c.is_ascii_whitespace() || c == '\x0b');
     let t = t.strip_suffix(';').unwrap_or(t);
     let t = t.trim_end_matches(';');
     let t = t.strip_prefix('`').unwrap_or(t);
